@@ -1,0 +1,14 @@
+//go:build verif
+
+package engine
+
+import "github.com/wundergraph/graphql-go-tools/v2/pkg/engine/resolve"
+
+// WithVerifResolveContext hands the request's resolve.Context to f before the operation is executed. It exists for the
+// verification harness only (build tag verif): the entity response cache is attached per request on the resolve.Context
+// (Context.SetResponseCache) and the execution engine exports no option for it.
+func WithVerifResolveContext(f func(ctx *resolve.Context)) ExecutionOptions {
+	return func(ctx *internalExecutionContext) {
+		f(ctx.resolveContext)
+	}
+}
